@@ -605,13 +605,12 @@ pub fn run(opts: &Opts) -> i32 {
     let n = if opts.budget > 0 { opts.budget } else if thorough { 6_000_000 } else { 160_000 };
     let cap = if thorough { 256 } else { 64 };
     let seed = opts.seed;
-    let (results, viol) = run_batch(n, opts.workers, move |i| job(seed, i, cap));
     let mut st = CaseStats::default();
     let mut cases = 0;
     let mut vm_cases = 0;
-    let mut nt: HashSet<u64> = HashSet::new();
+    let mut nt = Distinct::new();
     let mut samples = Vec::new();
-    for (_, r) in &results {
+    let (jobs_done, viol) = run_batch_chunked(n, opts.workers, move |i| job(seed, i, cap), |_, r| {
         add_stats(&mut st, &r.st);
         cases += r.cases;
         vm_cases += r.vm_cases;
@@ -621,7 +620,7 @@ pub fn run(opts: &Opts) -> i32 {
                 samples.push(s.clone());
             }
         }
-    }
+    });
     let wall = t0.elapsed().as_secs_f64();
     let mut code = 0;
     let mut violations = 0;
@@ -659,7 +658,7 @@ pub fn run(opts: &Opts) -> i32 {
             "fault_free_panicked_cases_skipped": st.panicked,
         }));
         extra.insert("runs_per_hour".into(), json!(((st.runs as f64) / wall.max(1e-9) * 3600.0) as u64));
-        extra.insert("seeds".into(), json!(format!("derive({}, 0..{})", seed, results.len())));
+        extra.insert("seeds".into(), json!(format!("derive({}, 0..{})", seed, jobs_done)));
         extra.insert("sweep_cap".into(), json!(cap));
         extra.insert("real_vs_stub".into(), json!({
             "real": ["fancy_regex public search API", "fancy_regex::vm::run", "regex-automata delegates", "RegexBuilder::backtrack_limit path (sampled)"],
